@@ -51,8 +51,10 @@ def job_annotate(job):
         line["keys"] = sorted(out.keys())
         line["out"] = {k: [proj(p) for p in (out.get(k) or [])] for k in
                        ("shortest", "fastest", "foremost", "fastest_shortest", "shortest_fastest")}
-        line["lens"] = [al.path_length(p) for p in cp]
-        line["durs"] = [al.path_duration(p) for p in cp]
+        def num(x):            # any integral scalar (numpy's included); anything else is a value no clause accepts
+            return core.as_int(x) if core.as_int(x) is not None else -10 ** 6
+        line["lens"] = [num(al.path_length(p)) for p in cp]
+        line["durs"] = [num(al.path_duration(p)) for p in cp]
         line["res"] = "ok"
     except Exception as ex:
         line["res"] = core.exc_name(ex)
@@ -69,12 +71,12 @@ def run(prop, tier, seed):
     cases = _cases(chk, 4 if tier == "quick" else 5)
     if tier == "quick":
         cases = rng.sample(cases, min(len(cases), 2500))
-    jobs = [(rng.randrange(1 << 30), c, rng.choice(["int", "zero", "str", "neg", "big", "tuple"]), rng.random() < 0.6) for c in cases]
+    jobs = [(rng.randrange(1 << 30), c, rng.choice(["int", "zero", "str", "neg", "big", "tuple", "mixed", "mixed", "under", "npt"]), rng.random() < 0.6) for c in cases]
     chk.run_jobs(job_annotate, jobs, "ann", chunk=3000)
     chk.assumptions = ["TLC, the CommunityModules and the JSON bridge are correct",
                        "returned paths are compared as sets of hop sequences (multiplicity of duplicates is not constrained)"]
     rule = ("every non-empty list of length <= %d over a pool of 8 paths (1-3 hops, ties in hop count, duration and arrival, "
             "duplicates, every order) enumerated by TLC; each list is fed to the real annotate_paths as tuples or lists of hop "
-            "tuples under int/str/negative/large/tuple node labelings; non-trivial = list of >= 2 paths; distinct = distinct digests"
+            "tuples under int / 0-based / str / negative / large / tuple / mixed-type (mutually non-comparable ids) / '_'-string / numpy-integer labelings; non-trivial = list of >= 2 paths; distinct = distinct digests"
             % (4 if tier == "quick" else 5))
     return chk.finish(rule, exhaustive=(tier == "thorough"))
